@@ -187,6 +187,22 @@ for t in ["hpd_k1", "hpd_k2", "hed_k1", "hed_k2", "ebr", "lfrc"]:
 for r in RECL_LAZY:
     _c17_quick.append(run("reclaim", "proto_" + r, c=1, opt={"ops": 0x62, "allow_update_only": 1, "gens": 2, "m": 1, "flush": 80}, weight=0.5))
     _c17_thorough.append(run("reclaim", "proto_" + r, c=2, opt={"ops": 0x6a, "allow_update_only": 1, "gens": 2, "m": 1, "flush": 80}, weight=1.5))
+# a record is adopted next to a long reader, in every phase of the epoch / era arithmetic (seed C17d: the adopting thread kept a stale epoch index
+# when the adopted record already carried the current epoch - only an epoch that is 2 modulo 3 exposes it): reader holding its guard | thread that
+# reads and exits | thread that starts afterwards, unlinks and retires what the reader holds and passes through m - 1 further critical regions;
+# T0 first passes through 0 .. phases-1 critical regions (DATA choice)
+for r in ["ebr", "nebr", "debra", "gebr_lazy", "gebr_thr", "qsbr", "hp", "hpd", "he", "hed", "lfrc", "stamp"]:
+    _c17_quick.append(run("reclaim", "proto_" + r, c=1, opt={"fixed": 3, "T": 3, "m": 3, "cells": 2, "phases": 3 if r == "stamp" else 6}, weight=0.3))
+    _c17_thorough.append(run("reclaim", "proto_" + r, c=2, opt={"fixed": 3, "T": 3, "m": 3, "cells": 2, "phases": 3 if r == "stamp" else 6}, weight=1.5))
+for r in ["ebr_f2", "debra_f1", "gebr_f3"]:
+    _c17_quick.append(run("reclaim", "proto_" + r, c=1, opt={"fixed": 3, "T": 3, "m": 5, "cells": 2, "phases": 13, "flush": 120}, weight=0.3))
+    _c17_thorough.append(run("reclaim", "proto_" + r, c=2, opt={"fixed": 3, "T": 3, "m": 5, "cells": 2, "phases": 13, "flush": 120}, weight=1.5))
+# generations in every phase of the epoch arithmetic (thorough): all programs of the generation families, started after 0..2 epochs
+for r in ["ebr", "nebr", "debra", "gebr_lazy", "gebr_thr", "qsbr", "he"]:
+    _c17_thorough.append(run("reclaim", "proto_" + r, c=1, opt={"ops": 0x62, "allow_update_only": 1, "gens": 2, "m": 1, "phases": 3}, weight=2.0))
+    _c01_thorough.append(run("reclaim", "proto_" + r, c=2, opt={"ops": 0x62, "phases": 3}, weight=2.0))
+for r in ["ebr_f2", "debra", "ebr"]:
+    _c01_quick.append(run("reclaim", "proto_" + r, c=1, opt={"fixed": 3, "T": 3, "m": 5 if r == "ebr_f2" else 3, "cells": 2, "phases": 13 if r == "ebr_f2" else 6, "flush": 120 if r == "ebr_f2" else 30}, weight=0.2))
 PLAN["C17"] = {
     "quick": _c17_quick, "thorough": _c17_thorough, "budget_s": {"quick": 170, "thorough": 1100},
     "rule": "G = 2..3 generations of T = 1..2 overlapping threads (fresh pthreads, thread_local reclaimer state constructed and destroyed per thread, destructors explored "
@@ -195,7 +211,8 @@ PLAN["C17"] = {
             "(c) live heap allocations not belonging to client nodes <= footprint of T0 + T x (measured footprint of one thread); in addition three concurrently live threads "
             "(holder, two unlinkers) with one operation each, so that a thread exits - abandoning what it retired - while another thread is inside a scan; (d) backlog bound for "
             "hazard pointers / eras with a scan threshold proportional to the live slots (A=1): after all generations a lone thread retires unprotected nodes one at a time and "
-            "the first destruction must come within the bound given by the threads alive at a time",
+            "the first destruction must come within the bound given by the threads alive at a time; (e) family 'a record is adopted next to a long reader' started "
+            "after 0..5 (0..12) critical regions of T0, i.e. in every phase of the epoch / era arithmetic",
     "assumptions": ["per-thread footprint is measured on T0 performing the same kinds of guard operations as the workers"],
 }
 LEVEL_TEXT["C17"] = ("all interleavings with <= c preemptions of all enumerated multi-generation thread programs (threads created, exiting and being replaced) for 13 "
@@ -689,6 +706,7 @@ _c03_quick = \
      _w("reclaim", "proto_hp", variant="tsanv", opt={"ops": 0x62}), _w("reclaim", "proto_ebr", variant="tsanv", opt={"ops": 0x62}), _w("reclaim", "proto_stamp", c=0, variant="tsanv", opt={"ops": 0x62}),
      run("queues", "ms_hp", c=2, variant="tsanv"), run("reclaim", "proto_qsbr", c=1, variant="tsanv", opt={"ops": 0xee})] + \
     [_w("queues", "nik_e1p1_ebr", c=2, d=1, weight=2)] + \
+    [_w("reclaim", "proto_" + r, c=2, d=1, opt={"ops": 0x22}, weight=1.5) for r in ["hp", "hpd", "he", "hed", "ebr", "qsbr"]] + \
     [run("queues", t, c=1, s=1, weight=0.5) for t in ["ms_hp", "nik_e1p1_ebr", "ram_e1p1_hp"]] + \
     [run("bounded", "vyukov", c=1, s=1, opt={"cap": 2}, weight=0.5), run("bounded", "nikolaev", c=1, s=1, opt={"cap": 2}, weight=0.5),
      run("hm", "set_hp", c=1, s=1, opt={"ops": 0x3, "prefill": 1}, weight=1), run("reclaim", "proto_lfrc", c=1, s=1, opt={"ops": 0x62}, weight=0.5),
@@ -733,7 +751,7 @@ _c03_thorough += [
      run("hm", "set_stamp", c=1, s=1, opt={"ops": 0x3, "prefill": 1}, weight=2),
      run("lr_seqlock", "seqlock_b16_s2", c=3, s=1, weight=1), run("deque", "grow2", c=2, s=1, weight=1), run("vy", "map_tt_i1_hp", c=1, s=1, opt={"keys": 2, "cap": 1, "ops": 0x7}, weight=2)]
 PLAN["C03"] = {
-    "quick": _c03_quick, "thorough": _c03_thorough, "budget_s": {"quick": 170, "thorough": 1800},
+    "quick": _c03_quick, "thorough": _c03_thorough, "budget_s": {"quick": 190, "thorough": 1800},
     "rule": "part A (race freedom): the happens-before race detector (vector clocks fed only by the written memory orders, fences, mutexes, spawn/join) is armed in every execution "
             "of every check C01-C18; part B (weak executions): the harness families of C01, C04-C15 re-run in wmm mode - every atomic location keeps its modification order, a "
             "load may read any message not excluded by coherence / happens-before / seq_cst that was superseded at most W steps ago; reads-from choices are enumerated with at "
